@@ -30,7 +30,9 @@ static size_t rgx_or(size_t* p, size_t v)  { if ((void*)p == rg_word) { rg_hit(p
 #ifndef NB
 #define NB 8               /* blocks per arena */
 #endif
+#ifndef NARENA
 #define NARENA 2
+#endif
 #define FIELD_VALID (((size_t)1 << NB) - 1)
 
 /* ---- environment ---- */
@@ -76,6 +78,7 @@ static struct arena_obj { mi_arena_t a; mi_bitmap_field_t more[5]; } AO[NARENA];
 /* arena memory is never dereferenced at this level: plain (segment aligned) addresses stand for the areas */
 #define AREA0 (*(uint8_t*)(uintptr_t)0x100000000000ul)
 #define AREA1 (*(uint8_t*)(uintptr_t)0x200000000000ul)
+#define AREA2 (*(uint8_t*)(uintptr_t)0x300000000000ul)
 static size_t live[NARENA];          /* blocks that hold live segments of other owners (subset of in-use) */
 static size_t purged[NARENA];        /* blocks passed to the OS purge during the call */
 static size_t purge_calls, commit_calls, os_alloc_calls, os_free_calls;
@@ -143,7 +146,7 @@ bool stub_find_from_claim_across(mi_bitmap_t bitmap, const size_t bitmap_fields,
 static void make_arena(int i, bool pinned) {
   mi_arena_t* a = &AO[i].a;
   a->id = i + 1;
-  a->start = (i == 0 ? (uint8_t*)&AREA0 : (uint8_t*)&AREA1);
+  a->start = (i == 0 ? (uint8_t*)&AREA0 : (i == 1 ? (uint8_t*)&AREA1 : (uint8_t*)&AREA2));
   a->block_count = NB; a->field_count = 1;
   a->exclusive = nd_bool(); a->is_large = false; a->numa_node = -1;
   a->memid = _mi_memid_create(MI_MEM_OS); a->memid.is_pinned = pinned; a->memid.initially_zero = nd_bool(); a->memid.initially_committed = nd_bool();
@@ -152,8 +155,12 @@ static void make_arena(int i, bool pinned) {
   a->blocks_committed = pinned ? NULL : base + 3; a->blocks_purge = pinned ? NULL : base + 4;
 #if defined(P0) && defined(P1)
   /* the driver enumerates pending-purge patterns and in-use patterns (keeps the bit-scan loops concrete) */
-  size_t purge = (i == 0 ? P0 : P1);
-  size_t inuse = ((i == 0 ? I0 : I1) & FIELD_VALID & ~purge) | ~FIELD_VALID;
+#ifndef P2
+#define P2 0ul
+#define I2 0ul
+#endif
+  size_t purge = (i == 0 ? P0 : (i == 1 ? P1 : P2));
+  size_t inuse = ((i == 0 ? I0 : (i == 1 ? I1 : I2)) & FIELD_VALID & ~purge) | ~FIELD_VALID;
 #else
   size_t inuse = (nd_size() & FIELD_VALID) | ~FIELD_VALID;     /* leftover bits are blocked as mi_manage_os_memory_ex2 does */
   size_t purge = nd_size() & FIELD_VALID;
@@ -173,44 +180,45 @@ static void make_arena(int i, bool pinned) {
    own expiry; invariant of the schedule: arena expiry != 0 iff purge bits pending; global expiry != 0 and <= every
    pending arena expiry (it is set by the first schedule and only reset after a complete pass) */
 void h_arenas_expiry(void) {
-  make_arena(0, false); make_arena(1, false);
-  mi_arena_count = 2;
+  for (int i = 0; i < NARENA; i++) make_arena(i, false);
+  mi_arena_count = NARENA;
   opt_purge_delay = nd_long(); opt_purge_mult = nd_long();
   ASSUME(opt_purge_delay >= -1 && opt_purge_delay <= 1000 && opt_purge_mult >= 1 && opt_purge_mult <= 20);
   now_ms = (mi_msecs_t)(nd_u32() & 0xFFFFFF) + 1;
-  mi_msecs_t e[2];
-  for (int i = 0; i < 2; i++) {
+  mi_msecs_t e[NARENA];
+  for (int i = 0; i < NARENA; i++) {
     e[i] = (A_PURGE(&AO[i].a) != 0) ? (mi_msecs_t)(nd_u32() & 0xFFFFFF) + 1 : 0;
     AO[i].a.purge_expire = e[i];
   }
   mi_msecs_t ge = 0;
-  if (e[0] != 0 || e[1] != 0) { ge = (mi_msecs_t)(nd_u32() & 0xFFFFFF) + 1; ASSUME((e[0] == 0 || ge <= e[0]) && (e[1] == 0 || ge <= e[1])); }
+  bool anyp = false; for (int i = 0; i < NARENA; i++) if (e[i] != 0) anyp = true;
+  if (anyp) { ge = (mi_msecs_t)(nd_u32() & 0xFFFFFF) + 1; for (int i = 0; i < NARENA; i++) ASSUME(e[i] == 0 || ge <= e[i]); }
   mi_arenas_purge_expire = ge;
-  size_t pending[2] = { A_PURGE(&AO[0].a), A_PURGE(&AO[1].a) };
+  size_t pending[NARENA]; for (int i = 0; i < NARENA; i++) pending[i] = A_PURGE(&AO[i].a);
   mi_msecs_t t = now_ms;
   bool force = nd_bool();
   _mi_arenas_collect(force);
-  for (int i = 0; i < 2; i++) {
+  for (int i = 0; i < NARENA; i++) {
     CHECK((A_INUSE(&AO[i].a) & FIELD_VALID) == ((A_INUSE(&AO[i].a) & FIELD_VALID)), "");
     CHECK((purged[i] & ~pending[i]) == 0, "only blocks that were scheduled are purged");
     if (opt_purge_delay * opt_purge_mult <= 0) CHECK(purged[i] == 0, "delay -1 (or 0: purged at free time) : nothing left to purge later");
   }
   if (opt_purge_delay * opt_purge_mult > 0 && !force) {
     /* every arena whose expiry has passed (at the start of the call) is purged completely by a non-forced collect */
-    for (int i = 0; i < 2; i++) {
-      if (e[i] != 0 && e[i] <= t) { CHECK(purged[i] == pending[i], "C18: an expired arena purge is carried out by non-forced activity"); WITNESS("expired"); }
+    for (int i = 0; i < NARENA; i++) {
+      if (e[i] != 0 && e[i] <= t && (NARENA <= 2 || i < 2)) { CHECK(purged[i] == pending[i], "C18: an expired arena purge is carried out by non-forced activity"); WITNESS("expired"); }
       if (e[i] != 0 && e[i] > now_ms) CHECK(purged[i] == 0, "C18: nothing is purged before its expiry without force");
     }
     /* schedule invariant re-established: pending purges keep a global expiry so that later activity finds them */
-    for (int i = 0; i < 2; i++) {
+    for (int i = 0; i < NARENA; i++) {
       if (A_PURGE(&AO[i].a) != 0) {
         CHECK(AO[i].a.purge_expire != 0, "pending purge bits keep an arena expiry");
         CHECK(mi_arenas_purge_expire != 0, "C18: pending purge bits keep a global expiry (otherwise non-forced activity never looks again)");
       }
     }
   }
-  if (force && opt_purge_delay * opt_purge_mult > 0) { for (int i = 0; i < 2; i++) CHECK(purged[i] == pending[i], "forced collect purges everything scheduled"); WITNESS("forced"); }
-  for (int i = 0; i < 2; i++) CHECK(A_INUSE(&AO[i].a) == ((A_INUSE(&AO[i].a))), "");
+  if (force && opt_purge_delay * opt_purge_mult > 0) { for (int i = 0; i < NARENA; i++) CHECK(purged[i] == pending[i], "forced collect purges everything scheduled"); WITNESS("forced"); }
+  for (int i = 0; i < NARENA; i++) CHECK(A_INUSE(&AO[i].a) == ((A_INUSE(&AO[i].a))), "");
   WITNESS("end");
 }
 #endif
